@@ -3,7 +3,6 @@ from . import terms as T
 from . import pat as P
 from . import circ, leaf, postable
 from .pat import V, K, Cb
-from .C02 import _range04
 
 HEADER_ORDER = [("all", "block_header.header.parent_hash"), ("one", "block_header.header.block_number"),
                 ("all", "block_header.header.state_root"), ("all", "block_header.header.extrinsics_root"),
@@ -34,20 +33,19 @@ def check_view(ck, view, tag=""):
     bh = view.role("block_header.block_hash")
     hit = None
     for g in gates:
-        a, ia = leaf.split_indexed(g["A"])
-        b, ib = leaf.split_indexed(g["B"])
+        a, ia, b, ib, nest = leaf.split_pair(g["e"], g["A"], g["B"])
         for pub, ip, comp, ic in ((a, ia, b, ib), (b, ib, a, ia)):
             if strip_el(pub) == bh:
-                hit = (g, ip, comp, ic)
+                hit = (g, ip, comp, ic, nest)
     if hit is None:
         ck.fail("TERM", tag + "block-hash/present", "no (gated) equality between the public block hash and a computed hash")
     else:
-        g, ip, comp, ic = hit
+        g, ip, comp, ic, nest = hit
         e = g["e"]
         pre = leaf.single_hash_preimage(comp)
         ck.require(pre is not None and leaf.double_hash_preimage(comp) is None, "TERM", tag + "block-hash/single-hash",
                    "block hash limb is compared with one Poseidon2 hash of the header preimage", e.loc, T.show(comp)[:300])
-        ck.require(ip == ic and _range04(ip), "TERM", tag + "block-hash/all-limbs", "same limb index i in 0..4 on both sides", e.loc)
+        ck.require(leaf.all_limbs(nest, ip, ic), "TERM", tag + "block-hash/all-limbs", "same limb index i in 0..4 on both sides", e.loc)
         ck.require(P.norm(g["G"]) in (flag, role_flag), "PROV", tag + "block-hash/flag", "gated by the in-circuit dummy flag only", e.loc)
         circ.require_uncond(ck, e, "UNCOND", tag + "block-hash/uncond", "the block-hash binding")
         if pre is not None:
@@ -60,29 +58,28 @@ def check_view(ck, view, tag=""):
 
     # --- header root == merkle root --------------------------------------------------------------------
     zr, rh = view.role("block_header.header.zk_tree_root"), view.role("zk_merkle_proof.root_hash")
-    hr = [g for g in gates if {strip_el(leaf.split_indexed(g["A"])[0]), strip_el(leaf.split_indexed(g["B"])[0])} == {zr, rh}]
+    hr = [g for g in gates if {strip_el(x) for x in leaf.split_pair(g["e"], g["A"], g["B"])[0:3:2]} == {zr, rh}]
     if ck.require(len(hr) == 1, "TERM", tag + "header-root/present", "header.zk_tree_root[i] == zk_merkle_proof.root_hash[i] (gated)", hr[0]["e"].loc if hr else None):
         g = hr[0]
-        ia, ib = leaf.split_indexed(g["A"])[1], leaf.split_indexed(g["B"])[1]
-        ck.require(ia == ib and _range04(ia), "TERM", tag + "header-root/all-limbs", "all four limbs, same index", g["e"].loc)
+        _, ia, _, ib, nest = leaf.split_pair(g["e"], g["A"], g["B"])
+        ck.require(leaf.all_limbs(nest, ia, ib), "TERM", tag + "header-root/all-limbs", "all four limbs, same index", g["e"].loc)
         ck.require(P.norm(g["G"]) in (flag, role_flag), "PROV", tag + "header-root/flag", "gated by the in-circuit dummy flag only", g["e"].loc)
         circ.require_uncond(ck, g["e"], "UNCOND", tag + "header-root/uncond", "the header-root binding")
 
     # --- merkle walk -----------------------------------------------------------------------------------------
     mr = None
     for g in gates:
-        a, ia = leaf.split_indexed(g["A"])
-        b, ib = leaf.split_indexed(g["B"])
+        a, ia, b, ib, nest = leaf.split_pair(g["e"], g["A"], g["B"])
         for walk, iw, root, ir in ((a, ia, b, ib), (b, ib, a, ia)):
             if strip_el(root) == rh and strip_el(walk) != zr:
-                mr = (g, walk, iw, ir)
+                mr = (g, walk, iw, ir, nest)
     if mr is None:
         ck.fail("TERM", tag + "merkle-root/present", "no (gated) equality between the walked hash and zk_merkle_proof.root_hash")
         return
-    g, walk, iw, ir = mr
+    g, walk, iw, ir, nest = mr
     e = g["e"]
     fr = e.frame
-    ck.require(iw == ir and _range04(iw), "TERM", tag + "merkle-root/all-limbs", "all four limbs, same index", e.loc)
+    ck.require(leaf.all_limbs(nest, iw, ir), "TERM", tag + "merkle-root/all-limbs", "all four limbs, same index", e.loc)
     ck.require(P.norm(g["G"]) in (flag, role_flag), "PROV", tag + "merkle-root/flag", "gated by the dummy flag only", e.loc)
     circ.require_uncond(ck, e, "UNCOND", tag + "merkle-root/uncond", "the merkle-root binding")
     walk = P.norm(walk)
